@@ -33,6 +33,13 @@ theorem nw_getSize : NoWrite getSize :=
   NoWrite.bind NoWrite.ftell fun _ =>
     NoWrite.tryFinally (NoWrite.bind NoWrite.fseekEnd fun _ => NoWrite.ftell) (NoWrite.fseek _)
 
+theorem nw_seekBack (off : Int) : NoWrite (seekBack off) := by
+  unfold seekBack
+  apply NoWrite.bind NoWrite.ftell; intro p
+  split
+  · exact NoWrite.raise _
+  · exact nw_fseekRel _
+
 theorem nw_readIsApe : NoWrite readIsApe := NoWrite.bind (NoWrite.fread _) fun _ => NoWrite.pure _
 theorem nw_backTell : NoWrite backTell := NoWrite.bind (nw_fseekRel _) fun _ => NoWrite.ftell
 
@@ -45,7 +52,7 @@ theorem nw_viaV1M : NoWrite viaV1M := by
     apply NoWrite.bind (NoWrite.fread _); intro t
     split
     · exact NoWrite.pure _
-    · apply NoWrite.bind (nw_fseekRel _); intro _
+    · apply NoWrite.bind (nw_seekBack _); intro _
       apply NoWrite.bind nw_readIsApe; intro a
       split
       · exact NoWrite.bind nw_backTell fun _ => NoWrite.pure _
@@ -57,7 +64,7 @@ theorem nw_viaV1M : NoWrite viaV1M := by
           apply NoWrite.bind (NoWrite.fread _); intro d
           split
           · exact NoWrite.raise _
-          · apply NoWrite.bind (nw_fseekRel _); intro _
+          · apply NoWrite.bind (nw_seekBack _); intro _
             apply NoWrite.bind nw_readIsApe; intro b
             split
             · exact NoWrite.bind nw_backTell fun _ => NoWrite.pure _
@@ -65,9 +72,10 @@ theorem nw_viaV1M : NoWrite viaV1M := by
 
 theorem nw_findMetadataM : NoWrite findMetadataM := by
   unfold findMetadataM
+  apply NoWrite.bind NoWrite.fseekEnd; intro _
   apply NoWrite.bind
-  · exact NoWrite.tryCatch (NoWrite.bind (nw_fseekFromEnd _) fun _ => NoWrite.pure _)
-      (fun _ => NoWrite.bind NoWrite.fseekEnd fun _ => NoWrite.pure _)
+  · exact NoWrite.tryCatch (NoWrite.bind (nw_seekBack _) fun _ => NoWrite.pure _)
+      (fun _ => NoWrite.pure _)
   · intro sought
     split
     · exact NoWrite.pure _
@@ -87,7 +95,7 @@ theorem nw_fixBrokenM (fuel start : Nat) : NoWrite (fixBrokenM fuel start) := by
     split
     · exact NoWrite.pure _
     · apply NoWrite.bind
-      · exact NoWrite.tryCatch (NoWrite.bind (nw_fseekRel _) fun _ => NoWrite.pure _) (fun _ => NoWrite.pure _)
+      · exact NoWrite.tryCatch (NoWrite.bind (nw_seekBack _) fun _ => NoWrite.pure _) (fun _ => NoWrite.pure _)
       · intro moved
         split
         · exact NoWrite.pure _
